@@ -17,7 +17,7 @@ RULE = (
     "enforce_rules x use_current; (B) adjudication: Original only / Original then Modified / Modified then Original (key "
     "order in the file) x contests present in Original x contests covered by Modified x layout (flat, 'Cards' with one or "
     "two cards) x use_current x enforce_rules; (C) 1-2 sessions x counting groups x numeric or obfuscated ('X' + ImageMask) "
-    "record identifiers x include_groups x pool_groups.  Oracle: reference importer written from the property text.  "
+    "record identifiers x include_groups x pool_groups; (D) directories of 1-3 export files (plus decoys) through read_cvrs_directory.  Oracle: reference importer written from the property text.  "
     "Non-trivial = export with a repeated candidate, an uncounted mark, adjudicated data or a filtered session; distinct = "
     "distinct (document, options)"
 )
@@ -150,6 +150,35 @@ def judge(doc_spec, opts):
     return ded
 
 
+def judge_directory(nfiles, opts):
+    """read_cvrs_directory: the files CvrExport_*.json of a directory, in sorted file-name order, each in file order"""
+    d = tempfile.mkdtemp(prefix="dir-", dir=os.path.dirname(tmpfile()))
+    try:
+        names = ["CvrExport_1.json", "CvrExport_10.json", "CvrExport_2.json", "notes.json", "CvrExport.json"][: nfiles + 2] if nfiles >= 3 else \
+            ["CvrExport_2.json", "CvrExport_1.json", "other.json"][: nfiles + 1]
+        specs = {}
+        for j, nm in enumerate(names):
+            spec = [(20 + j, 1, 5 + i, 1 + (i + j) % 2, [("Original", [("c1", VARIANTS["a" if (i + j) % 2 else "c"])], "flat")]) for i in range(2)]
+            specs[nm] = spec
+            with open(os.path.join(d, nm), "w") as f:
+                json.dump({"Sessions": [session(*s_) for s_ in spec]}, f)
+        try:
+            got = Dominion.read_cvrs_directory(d, use_current=opts["use_current"], enforce_rules=opts["enforce_rules"],
+                                               include_groups=opts["include_groups"], pool_groups=opts["pool_groups"])
+        except Exception as e:  # noqa
+            return [(f"C19|directory|exception|{type(e).__name__}", f"read_cvrs_directory raised {type(e).__name__}: {str(e)[:80]}")]
+        want = []
+        for nm in sorted(n_ for n_ in names if n_.startswith("CvrExport_") and n_.endswith(".json")):
+            want += [r for r in (ref_session(s_, opts) for s_ in specs[nm]) if r is not None]
+        if [c.id for c in got] != [w[0] for w in want]:
+            return [("C19|directory|records", f"records {[c.id for c in got]}, expected {[w[0] for w in want]} (files {names})")]
+        if [c.pool for c in got] != [w[2] for w in want] or any(not votes_equal(c.votes.get("c1", {}), w[3]["c1"]) for c, w in zip(got, want)):
+            return [("C19|directory|contents", "records read from a directory differ from the same files read one by one")]
+        return []
+    finally:
+        shutil.rmtree(d, ignore_errors=True)
+
+
 def O(**kw):
     d = {"use_current": True, "enforce_rules": True, "include_groups": [], "pool_groups": []}
     d.update(kw)
@@ -214,6 +243,19 @@ def run_shard(sh, rec):
                         rec.sample({"marks(candidate,rank,IsVote)": seq, "enforce_rules": er, "use_current": uc, "expected_votes": ref_contest(seq, er)})
             if not L:
                 break
+    elif sh[0] == "D":
+        for nfiles in (1, 2, 3):
+            for ig in ([], [1], [2]):
+                for pg in ([], [2]):
+                    opts = O(include_groups=ig, pool_groups=pg)
+                    v = judge_directory(nfiles, opts)
+                    rec.state()
+                    rec.trans()
+                    rec.evals()
+                    rec.trace()
+                    rec.vac("directories_read")
+                    for key, what in v:
+                        rec.violate(key, what, {"dir": nfiles, "opts": opts})
     else:
         gen = part_b_cases() if sh[0] == "B" else part_c_cases()
         for i, (spec, opts) in enumerate(gen):
@@ -253,6 +295,7 @@ def explore(tier, seed):
     for r in range(8):
         sh.append(("B", r, 8))
     sh.append(("C", 0, 1))
+    sh.append(("D",))
     tmpfile()  # create the parent directory before forking; removed below (and at exit)
     try:
         return core.pmap(run_shard, sh, seed, progress="C19")
@@ -261,5 +304,7 @@ def explore(tier, seed):
 
 
 def run_case(case):
+    if "dir" in case:
+        return judge_directory(case["dir"], case["opts"])
     spec = [(s[0], s[1], s[2], s[3], [(p[0], [(c[0], [tuple(m) for m in c[1]]) for c in p[1]], p[2]) for p in s[4]]) for s in case["spec"]]
     return judge(spec, case["opts"])
